@@ -386,8 +386,26 @@ impl GraphQLTranslator {
         }
 
         // Process nested selection set
+        let mut order_by = extracted.order_by;
         if let Some(selection_set) = &field.selection_set {
-            plan = self.translate_selection_set(selection_set, plan, &var)?;
+            let (selected, return_items) =
+                self.collect_selection_items(selection_set, plan, &var)?;
+            plan = selected;
+            // orderBy names properties of the root variable, which the projection of the
+            // selected fields no longer carries: sort before projecting
+            if let Some(keys) = order_by.take() {
+                plan = LogicalOperator::Sort(SortOp {
+                    keys,
+                    input: Box::new(plan),
+                });
+            }
+            if !return_items.is_empty() {
+                plan = LogicalOperator::Return(ReturnOp {
+                    items: return_items,
+                    distinct: false,
+                    input: Box::new(plan),
+                });
+            }
         } else {
             // No nested selection, return the whole node
             plan = LogicalOperator::Return(ReturnOp {
@@ -401,7 +419,7 @@ impl GraphQLTranslator {
         }
 
         // Apply ordering (before pagination)
-        if let Some(keys) = extracted.order_by {
+        if let Some(keys) = order_by {
             plan = LogicalOperator::Sort(SortOp {
                 keys,
                 input: Box::new(plan),
